@@ -64,7 +64,19 @@ def run(rep):
     rng = random.Random(rep.seed + 1)
     nh = 40 if rep.tier == 'quick' else 1500
     sample = [h for h in hists if h[0].startswith('gen')][:nh]
-    scripts = [h[1] + [l for l, k in h[2] if not l.startswith(('u_', 'commit'))] for h in sample]
+    def with_services(h):
+        out = list(h[1])
+        for l, k in h[2]:
+            if l.startswith(('u_', 'commit')):
+                continue
+            out.append(l)
+            if k == 'op' and not l.startswith(('new', 'fit ', 'solsys')):
+                # statistics and validation are services too: observe them on the implementation
+                for f in h[3]['fits']:
+                    out.append('stats %d' % f)
+                    out.append('validate %d' % f)
+        return out
+    scripts = [with_services(h) for h in sample]
     cfgs = [dict(order_seed=0, salt=0, mode='sorted'), dict(order_seed=1, salt=0, mode='reverse'),
             dict(order_seed=2, salt=11, mode='shuffle'), dict(order_seed=3, salt=23, mode='shuffle')]
     short = [k for k, s in enumerate(scripts) if len(sample[k][4]) <= (60 if rep.tier == 'quick' else 80)]
@@ -82,7 +94,7 @@ def run(rep):
                         continue
                     if not eng_run.same(cmd, strip(a), strip(b)):
                         rep.violation({'kind': 'history', 'ulines': sample[hi][1],
-                                       'ops': scripts[hi][len(sample[hi][1]):k + 1],
+                                       'ops': [x for x in scripts[hi][len(sample[hi][1]):k + 1]],
                                        'fails': 'schedule %s (PYTHONHASHSEED=%d) differs from the sorted schedule '
                                                 'at %r: %s vs %s' % (cfgs[ci], hashseed, cmd, a, b)})
                         return
